@@ -680,3 +680,7 @@ PROPS["C17"]["scenarios"] = PROPS["C17"]["scenarios"] + ["enum:suites,dcmi"]
 # a missed reply, then a peer that never stops sending: the next call still returns by its deadline (seed C05-B15, real UDP transport)
 PROPS["C05"]["scenarios"] = PROPS["C05"]["scenarios"] + ["flood"]
 PROPS["C13"]["scenarios"] = PROPS["C13"]["scenarios"] + ["flood"]
+for _p in ("C13", "C05"):
+    PROPS[_p]["proofs"] = PROPS[_p]["proofs"] + ["Bmc.Proofs.C13Source"]
+    PROPS[_p]["claim"] += (" transport_source (Proofs/C13Source.lean, regenerated fact): the UDP transport (internal/pkg/transport: New, Send, Close, Address, the struct's fields) as it stands in the source on this run is the text "
+                           "the time model's assumption about Send (one write, one read, both under the context's deadline) was written against.")
